@@ -53,6 +53,11 @@ func Main(args []string) {
 	depthOverride := fs.Int("depth", 0, "override the depth of every run")
 	only := fs.Int("run", -1, "execute only run number n")
 	fs.Parse(args)
+	// github.com/99designs/keyring connects to the D-Bus session bus in its package init; without
+	// an address godbus autolaunches a dbus-daemon that outlives every worker and CLI process
+	if os.Getenv("DBUS_SESSION_BUS_ADDRESS") == "" {
+		os.Setenv("DBUS_SESSION_BUS_ADDRESS", "unix:path=/nonexistent")
+	}
 	if *replay != "" {
 		os.Exit(Replay(*replay))
 	}
